@@ -66,7 +66,8 @@ func Judge(obs *e2e.Obs) (fs []finding, info map[string]int) {
 	check := func(d e2e.Delivered) {
 		if d.Stamp == "" {
 			// the partial last line of a connection still open at the stop may end before its stamp
-			if pid, err := strconv.Atoi(d.Fields["pid"]); err == nil && open[pid-1000] {
+			// (the cut can fall anywhere, also inside the header, so the event cannot be attributed to a connection)
+			if len(open) > 0 {
 				info["partial_lines_from_open_connections"]++
 				return
 			}
